@@ -208,6 +208,20 @@ CHECKS = {
              'exact flag set, ClientAuth entries), on hostname / private_key / clients of the service before and after '
              'completion, and on DEL_ONION.',
         note='Trusted: refs/addonion.py, mc/simtor.py. BasicAuth is explored for version 2 with a real RSA key only.'),
+    'C15': dict(
+        engine=E2, design='DESIGN.md section 4 / C15',
+        technique='explicit-state BFS over HS_DESC event histories (two services sharing directories, reply placement, both '
+                  'waiting modes, rejection, connection loss) on the real creation code, three-set reference model evaluated '
+                  'after every event, differential classification (foreign events deleted)',
+        text='Events UPLOAD / UPLOADED / FAILED for our service and a foreign one over 2 (quick) / 3 (thorough) shared directories, '
+             'each upload starting and resolving once; the creating command (ADD_ONION for ephemeral, SETCONF + hostname file for '
+             'filesystem services) answered 250 anywhere in the history, rejected, or the connection lost; await-all on/off; '
+             'plus our service alone over 4 directories. Every reachable (environment, reference, implementation) state is '
+             'expanded. After every event: create() has fired iff the reference condition holds, exactly once; at the end the '
+             'HS_DESC subscription is gone after success and after failure.',
+        note='Trusted: mc/simtor.py; Tor cannot report a service\'s uploads before answering the command that creates it '
+             '(those histories: safety clauses only). Known finding: UPLOADED is matched by directory only (pinned by the '
+             'repository\'s tests).'),
 }
 
 PENDING = {}
